@@ -95,7 +95,11 @@ def later_item_starts_with_table(blocks):
 
 
 def check_tree(r, blocks, o):
-    md, rec = trees.to_markdown(blocks, o)
+    try:
+        md, rec = trees.to_markdown(blocks, o, strict=True)
+    except trees.Unwritable:
+        r.skip('a written line reads as a thematic break (nested empty items)')
+        return
     want = trees.expected_html(blocks, o)
     r.transitions += 1
     try:
